@@ -61,7 +61,7 @@ def mc1(ctx, ctx0):
     # sanity of the model (thorough): each design switch off must break its invariant
     for sw, inv in () if ctx0.quick() else (("CarryDesc", ("StreamInSync", "ImplRefines")), ("CloseOnReject", ("LedgerBalanced",)),
                     ("RejectCtrunc", ("ImplRefines",)), ("AbsorbDesc", ("StreamInSync", "ImplRefines")),
-                    ("ValueHandover", ("DeliveredImmutable",))):
+                    ("ValueHandover", ("DeliveredImmutable",)), ("FreshReader", ("InOrder", "Whole"))):
         bad = cfg.replace("%s = TRUE" % sw, "%s = FALSE" % sw)
         b = ctx.tlc("Socket_MC", cfg=bad + "\n", workers=2, timeout=600)
         if b.invariant not in inv:
@@ -70,7 +70,8 @@ def mc1(ctx, ctx0):
                                 "descriptors of a refused message not closed -> LedgerBalanced",
                                 "MSG_CTRUNC ignored (receiver short of descriptor slots) -> ImplRefines",
                                 "descriptors in a packet dropped for MSG_CTRUNC never reach the decoder -> StreamInSync",
-                                "delivered messages alias per-socket storage -> DeliveredImmutable"]
+                                "delivered messages alias per-socket storage -> DeliveredImmutable",
+                                "decoder keeps the unread rest of a rejected packet -> InOrder"]
 
 
 def describe(tr, i):
@@ -83,6 +84,8 @@ def describe(tr, i):
     if e["op"] == "recv":
         return ("free=%d " % e["free"] if e.get("free", -1) >= 0 else "") + "recv rbuf=%d want=%s -> err=%r n=%d mids=%s handed=%d fdd=%d" % (
             e["rbuf"], e["want"], e["err"], e["n"], e["mids"], e["handed"], e["fdd"])
+    if e["op"] == "inject":
+        return "inject #%d %s packet nfds=%d -> err=%r" % (e["id"], e["kind"], e["nfds"], e["err"])
     if e["op"] == "inspect":
         return "inspect delivered message #%d -> files=%s cloexec=%d same=%d cred=%s" % (
             e["j"], e["rfidx"][:8], e["nce"], e["nsame"], e["cred"])
@@ -104,7 +107,10 @@ def run(ctx):
     cases = ctx.read_ndjson(os.path.join(g.dir, "cases.ndjson"))
     generated = len(cases)
     press = [c for c in cases if c["part"].startswith("press")]      # receiver short of descriptor slots: all
-    cases = [c for c in cases if not c["part"].startswith("press")]
+    bad = [c for c in cases if c["part"] == "badhist"]               # rejected packets inside message sequences
+    ctx.rng.shuffle(bad)
+    press += bad[:ctx.pick(600, 4000)]
+    cases = [c for c in cases if not c["part"].startswith("press") and c["part"] != "badhist"]
     if ctx.quick():
         # everything up to 2 operations, a seeded sample of the longer histories
         short = [c for c in cases if len(c["ops"]) <= 3]
@@ -135,6 +141,7 @@ def run(ctx):
         "we are root: forged SCM_CREDENTIALS (pid 1, uid 4242, gid 4343) are accepted; credentials are delivered only with SO_PASSCRED on the receiving end (then the sender's own when none were specified)",
         "Go runtime latitude (not go-sandbox code): an empty payload with control data travels as one zero byte; an empty payload without control data is reported as EOF by net.UnixConn",
         "a delivered message is immutable: the driver keeps every Msg exactly as RecvMsg returned it and looks at it right away, after the following receive, or after the whole sequence (per case); identity/order/cloexec/credentials are judged at that moment",
+        "rejected packets: the driver puts packets that are not protocol messages (a gob type described twice with an unread value behind it, a cut gob stream, garbage; 0 or 2 descriptors attached) on the connection through the raw socket underneath; they use a third gob type that no real message uses, so they are rejected whatever the decoder has seen",
         "receive buffers of at least one byte; at most two 64 KiB messages in flight (socket send buffer)",
         "descriptor-table pressure: the soft RLIMIT_NOFILE of a dedicated driver process is lowered around the receive so that exactly `free` descriptor numbers are unused; the kernel then installs the first `free` descriptors and sets MSG_CTRUNC",
         "framed layer: a value message between Cap - descriptors and Cap may be accepted or refused at the property layer (implementation layer predicts exactly -> drift)",
@@ -240,7 +247,7 @@ def judge(ctx, cases, traces, bad, drift):
     hist = {}
     for t in traces:
         for e in t["ev"]:
-            if e["op"] in ("probe", "inspect"):
+            if e["op"] in ("probe", "inspect", "inject"):
                 continue
             k = "%s.%s.%s" % (t["layer"], e["op"], e["errc"] or "ok")
             hist[k] = hist.get(k, 0) + 1
